@@ -231,9 +231,22 @@ func (Engine) Run(c *choice.Src, o engine.Opt) (out engine.Out) {
 	out.Params["customizer_len"] = clen
 	fp = append(fp, fmt.Sprint("mode", mode, "clen", clen))
 
+	oneRecord := c.Bool(1, 3, "seed.and.customizer.in.one.buffer")
+	if oneRecord {
+		out.Faults["shape.customizer_and_seed_share_backing_array"]++
+	}
 	newPRG := func() (prg, error) {
 		// the caller's buffers are reused after the call: the generator must not alias them
 		s2, c2 := append([]byte(nil), seed...), append([]byte(nil), cust...)
+		if oneRecord {
+			// customizer and seed are neighbours in ONE caller buffer (a record "tag || seed"): the
+			// customizer's spare capacity is the seed, the seed's spare capacity a guard area
+			rec := make([]byte, len(cust)+len(seed)+16)
+			copy(rec, cust)
+			copy(rec[len(cust):], seed)
+			c2 = rec[:len(cust)]
+			s2 = rec[len(cust) : len(cust)+len(seed)]
+		}
 		p, err := random.NewChacha20PRG(s2, c2)
 		if err != nil {
 			return nil, err
